@@ -96,37 +96,67 @@ def _kv(d, keys):
     return ''.join(' (%s %s)' % (k2, d[k]) for k, k2 in keys if d.get(k) is not None)
 
 
+def _x(v):
+    return 'x' + str(v).encode('utf-8').hex()
+
+
+def _attrs_sexp(d):
+    """descriptive attributes; free text is hex-encoded"""
+    out = ''
+    for k, k2 in (('desc', 'desc'), ('semanticType', 'semanticType')):
+        if d.get(k) is not None:
+            out += ' (%s %s)' % (k2, _x(d[k]))
+    for k in ('since', 'deprecated'):
+        if d.get(k) is not None:
+            out += ' (%s %s)' % (k, d[k])
+    return out
+
+
+def _text(d, keys):
+    return ''.join(' (%s %s)' % (k2, _x(d[k])) for k, k2 in keys if d.get(k) is not None)
+
+
 def elem_sexp(e):
     k = e['k']
     if k == 'type':
-        return '(type%s)' % _kv(e, [('name', 'name'), ('prim', 'prim'), ('length', 'length'), ('presence', 'presence'),
-                                    ('offset', 'offset')])
+        return '(type%s%s%s)' % (_kv(e, [('name', 'name'), ('prim', 'prim'), ('length', 'length'),
+                                         ('presence', 'presence'), ('offset', 'offset')]),
+                                 _text(e, [('min', 'min'), ('max', 'max'), ('null', 'null'), ('const', 'const'),
+                                           ('valueRef', 'valueRef'), ('charEnc', 'charEnc')]), _attrs_sexp(e))
     if k == 'composite':
-        return '(composite%s (elems %s))' % (_kv(e, [('name', 'name'), ('offset', 'offset')]),
-                                             ' '.join(elem_sexp(x) for x in e['elems']))
+        return '(composite%s%s (elems %s))' % (_kv(e, [('name', 'name'), ('offset', 'offset')]), _attrs_sexp(e),
+                                               ' '.join(elem_sexp(x) for x in e['elems']))
     if k == 'ref':
-        return '(ref%s)' % _kv(e, [('name', 'name'), ('type', 'type'), ('offset', 'offset')])
-    if k in ('enum', 'set'):
-        return '(%s%s)' % (k, _kv(e, [('name', 'name'), ('enc', 'enc'), ('offset', 'offset')]))
+        return '(ref%s%s)' % (_kv(e, [('name', 'name'), ('type', 'type'), ('offset', 'offset')]), _attrs_sexp(e))
+    if k == 'enum':
+        vals = ' '.join('(v (name %s) (value %s)%s)' % (v['name'], _x(v['value']), _attrs_sexp(v)) for v in e['values'])
+        return '(enum%s%s (values %s))' % (_kv(e, [('name', 'name'), ('enc', 'enc'), ('offset', 'offset')]),
+                                          _attrs_sexp(e), vals)
+    if k == 'set':
+        ch = ' '.join('(c (name %s) (index %s)%s)' % (c['name'], c['index'], _attrs_sexp(c)) for c in e['choices'])
+        return '(set%s%s (choices %s))' % (_kv(e, [('name', 'name'), ('enc', 'enc'), ('offset', 'offset')]),
+                                          _attrs_sexp(e), ch)
     raise ValueError(k)
 
 
 def members_sexp(m):
-    fs = ' '.join('(field%s)' % _kv(f, [('name', 'name'), ('id', 'id'), ('type', 'type'), ('offset', 'offset'),
-                                        ('presence', 'presence')]) for f in m.get('fields', []))
-    gs = ' '.join('(group%s %s)' % (_kv(g, [('name', 'name'), ('id', 'id'), ('dim', 'dim'),
-                                            ('blockLength', 'blockLength')]), members_sexp(g))
+    fs = ' '.join('(field%s%s%s)' % (_kv(f, [('name', 'name'), ('id', 'id'), ('type', 'type'), ('offset', 'offset'),
+                                             ('presence', 'presence')]), _text(f, [('valueRef', 'valueRef')]),
+                                     _attrs_sexp(f)) for f in m.get('fields', []))
+    gs = ' '.join('(group%s%s %s)' % (_kv(g, [('name', 'name'), ('id', 'id'), ('dim', 'dim'),
+                                              ('blockLength', 'blockLength')]), _attrs_sexp(g), members_sexp(g))
                   for g in m.get('groups', []))
-    ds = ' '.join('(data%s)' % _kv(d, [('name', 'name'), ('id', 'id'), ('type', 'type')]) for d in m.get('datas', []))
+    ds = ' '.join('(data%s%s)' % (_kv(d, [('name', 'name'), ('id', 'id'), ('type', 'type')]), _attrs_sexp(d))
+                  for d in m.get('datas', []))
     return '(fields %s) (groups %s) (datas %s)' % (fs, gs, ds)
 
 
 def to_sexp(s):
-    ms = ' '.join('(message%s %s)' % (_kv(m, [('name', 'name'), ('id', 'id'), ('blockLength', 'blockLength')]),
-                                      members_sexp(m)) for m in s['messages'])
-    return '(schema%s (types %s) (messages %s))' % (
+    ms = ' '.join('(message%s%s %s)' % (_kv(m, [('name', 'name'), ('id', 'id'), ('blockLength', 'blockLength')]),
+                                        _attrs_sexp(m), members_sexp(m)) for m in s['messages'])
+    return '(schema%s%s (types %s) (messages %s))' % (
         _kv(s, [('package', 'package'), ('id', 'id'), ('version', 'version'), ('byteOrder', 'byteOrder'),
-                ('headerType', 'headerType')]),
+                ('headerType', 'headerType')]), _text(s, [('semanticVersion', 'semanticVersion'), ('desc', 'desc')]),
         ' '.join(elem_sexp(e) for e in s['types']), ms)
 
 
@@ -152,6 +182,46 @@ class Gen:
 
     def maybe(self, p):
         return self.r.random() < p
+
+    WORDS = ['alpha', 'beta', 'price', 'Qty', 'order id', 'x', 'some text 42', 'a-b_c', 'UPPER', 'mixed Case.']
+
+    def decorate(self, d, semantic=False):
+        """descriptive attributes (traits must mirror them); text is kept free of characters that need escaping in
+        C++ string literals (those are exercised by the C07 stream)"""
+        r = self.r
+        if self.maybe(0.4):
+            d['desc'] = r.choice(self.WORDS)
+            self.hit('attr.description')
+        if self.maybe(0.25):
+            d['since'] = r.randint(0, self.version)
+            self.hit('attr.sinceVersion')
+            if self.maybe(0.4):
+                d['deprecated'] = r.randint(d['since'], self.version)
+                self.hit('attr.deprecated')
+        if semantic and self.maybe(0.2):
+            d['semanticType'] = r.choice(['Price', 'String', 'int', 'UTCTimestamp'])
+            self.hit('attr.semanticType')
+        return d
+
+    INT_RANGE = {'int8': (-128, 127), 'uint8': (0, 255), 'int16': (-32768, 32767), 'uint16': (0, 65535),
+                 'int32': (-2 ** 31, 2 ** 31 - 1), 'uint32': (0, 2 ** 32 - 1), 'int64': (-2 ** 63, 2 ** 63 - 1),
+                 'uint64': (0, 2 ** 64 - 1), 'char': (0, 127)}
+
+    def explicit_range(self, t):
+        """explicit minValue/maxValue/nullValue on an integer type"""
+        p = t['prim']
+        if p not in self.INT_RANGE or p == 'char' or t.get('presence') == 'constant':
+            return
+        lo, hi = self.INT_RANGE[p]
+        if self.maybe(0.3):
+            t['min'] = str(self.r.choice([lo, lo + 1, 0 if lo <= 0 else lo, 1 if lo <= 1 else lo]))
+            self.hit('type.explicit_min')
+        if self.maybe(0.3):
+            t['max'] = str(self.r.choice([hi, hi - 1, 100 if hi >= 100 else hi]))
+            self.hit('type.explicit_max')
+        if t.get('presence') == 'optional' and self.maybe(0.5):
+            t['null'] = str(self.r.choice([lo, hi, 0 if lo <= 0 else lo]))
+            self.hit('type.explicit_null')
 
     # -- types
     def header(self, name, members, types):
@@ -242,6 +312,8 @@ class Gen:
             if self.maybe(0.3):
                 t['presence'] = 'optional'
                 self.hit('type.optional')
+            self.explicit_range(t)
+            self.decorate(t, semantic=True)
             types.append(t)
             pool.append(t['name'])
             self.hit('type.' + p)
@@ -274,7 +346,9 @@ class Gen:
                 types.append({'k': 'type', 'name': tn, 'prim': enc})
                 enc = tn
                 self.hit('enum.named_encoding')
-            types.append({'k': 'enum', 'name': self.name('E'), 'enc': enc, 'values': vals})
+            for v in vals:
+                self.decorate(v)
+            types.append(self.decorate({'k': 'enum', 'name': self.name('E'), 'enc': enc, 'values': vals}))
             pool.append(types[-1]['name'])
             self.hit('enum')
         # sets
@@ -282,8 +356,8 @@ class Gen:
             enc = r.choice(UNSIGNED)
             w = PRIM_SIZE[enc] * 8
             idx = sorted(set(r.choice([0, 1, 7, 8, 15, 16, 30, 31, 32, 62, 63]) % w for _ in range(3)))
-            types.append({'k': 'set', 'name': self.name('S'), 'enc': enc,
-                          'choices': [{'name': 'c%d' % i, 'index': i} for i in idx]})
+            types.append(self.decorate({'k': 'set', 'name': self.name('S'), 'enc': enc,
+                                        'choices': [self.decorate({'name': 'c%d' % i, 'index': i}) for i in idx]}))
             pool.append(types[-1]['name'])
             self.hit('set.' + enc)
         # composites (inline members, refs, nesting)
@@ -326,7 +400,9 @@ class Gen:
                 self.hit('composite.constant_member')
         if all(self.is_const(e, types) for e in elems):
             elems.append({'k': 'type', 'name': self.name('m'), 'prim': 'uint8'})
-        comp = {'k': 'composite', 'name': self.name('C'), 'elems': elems}
+        for e in elems:
+            self.decorate(e, semantic=e['k'] != 'ref')
+        comp = self.decorate({'k': 'composite', 'name': self.name('C'), 'elems': elems}, semantic=True)
         types.append(comp)
         if self.maybe(0.35):
             self.add_offsets(elems, types)
@@ -360,7 +436,7 @@ class Gen:
                     f['offset'] = cur
                     self.hit('field.custom_offset')
                 cur += size
-            fields.append(f)
+            fields.append(self.decorate(f))
         lvl = {'fields': fields, 'groups': [], 'datas': []}
         if self.maybe(0.3):
             lvl['blockLength'] = cur + r.choice([0, 1, 3, 8])
@@ -369,16 +445,18 @@ class Gen:
             for _ in range(r.choice([0, 0, 1, 1, 2])):
                 g = self.gen_level(types, pool, dims, datas, depth + 1)
                 g.update({'name': self.name('g'), 'id': self.n, 'dim': r.choice(dims)})
+                self.decorate(g, semantic=True)
                 lvl['groups'].append(g)
                 self.hit('group.depth%d' % (depth + 1))
         for _ in range(r.choice([0, 0, 1, 2])):
-            lvl['datas'].append({'name': self.name('d'), 'id': self.n, 'type': r.choice(datas)})
+            lvl['datas'].append(self.decorate({'name': self.name('d'), 'id': self.n, 'type': r.choice(datas)}))
             self.hit('data.depth%d' % depth)
         return lvl
 
     def schema(self, nmsgs=2):
         r = self.r
         types = []
+        self.version = r.randint(0, 5)
         bo = r.choice(['littleEndian', 'bigEndian'])
         self.hit('byteOrder.' + bo)
         hdr_prim = lambda: r.choice(UNSIGNED[1:]) if self.hdr_variants else 'uint16'  # noqa: E731
@@ -403,6 +481,11 @@ class Gen:
         for _ in range(nmsgs):
             m = self.gen_level(types, pool, dims, datas, 0)
             m.update({'name': self.name('Msg'), 'id': self.n})
-            msgs.append(m)
-        return {'package': 'vs', 'id': r.randint(0, 60000), 'version': r.randint(0, 5), 'byteOrder': bo,
-                'types': types, 'messages': msgs}
+            msgs.append(self.decorate(m, semantic=True))
+        out = {'package': 'vs', 'id': r.randint(0, 60000), 'version': self.version, 'byteOrder': bo,
+               'types': types, 'messages': msgs}
+        if self.maybe(0.5):
+            out['semanticVersion'] = r.choice(['5.2', '1.0.0', 'v7'])
+        if self.maybe(0.5):
+            out['desc'] = r.choice(self.WORDS)
+        return out
